@@ -16,7 +16,7 @@ import (
 )
 
 func TestMain(m *testing.M) {
-	ev.Note("rule", "C01: rapid-generated schemas of all 16 kinds (depth<=3 quick / 5 thorough: map-based and struct-mapped objects from a struct catalogue, units, defaults, presence rules, one-of int/string x inlined/non-inlined x map/struct members, references incl. recursive, nested scopes) x inputs rendered from valid-by-construction values in an arbitrary representation per leaf (every int/uint/float width, numeric and unit strings, typed slices/maps, map[string]any vs map[any]any, single-property shorthand). Oracle: round-trip laws on the real API: accepted => Validate ok, Serialize ok and wire-typed, Unserialize(Serialize(u)) equals u and serializes identically, the same after cbor.Marshal/Unmarshal as ATP does it; typed entry points agree with the untyped ones. Equality is deep, NaN-reflexive, regexp-by-source, with empty==absent only for treat-empty-as-default schemas. Non-trivial: accepted input whose schema has a container/object and at least one leaf in a non-canonical representation; distinct by (schema, input).")
+	ev.Note("rule", "C01: rapid-generated schemas of all 16 kinds (depth<=3 quick / 5 thorough: map-based and struct-mapped objects from a struct catalogue, units, defaults, presence rules, one-of int/string x inlined/non-inlined x map/struct members, references incl. recursive, nested scopes) x inputs rendered from valid-by-construction values in an arbitrary representation per leaf (every int/uint/float width, numeric and unit strings, typed slices/maps, map[string]any vs map[any]any, single-property shorthand). Oracle: round-trip laws on the real API: accepted => Validate ok, Serialize ok and wire-typed, Unserialize(Serialize(u)) equals u and serializes identically, the same after cbor.Marshal/Unmarshal as ATP does it, and for one form in eight a real exchange (any-typed echo step on RunATPServer, the SDK's client) must deliver what a CBOR round trip of the in-process result gives; typed entry points agree with the untyped ones. Equality is deep, NaN-reflexive, regexp-by-source, with empty==absent only for treat-empty-as-default schemas. Non-trivial: accepted input whose schema has a container/object and at least one leaf in a non-canonical representation; distinct by (schema, input).")
 	ev.RegisterReplay("roundtrip", func(t *testing.T, raw json.RawMessage) {
 		var c Case
 		if err := json.Unmarshal(raw, &c); err != nil {
@@ -112,6 +112,9 @@ func laws(sch schema.Type, u any, o val.Opts, from string) string {
 	enc, err := cbor.Marshal(w)
 	if err != nil {
 		return fmt.Sprintf("serialized form %#v cannot be CBOR-encoded: %v", w, err)
+	}
+	if msg := atpLeg(w, enc); msg != "" {
+		return msg
 	}
 	for i, unmarshal := range []func([]byte, any) error{cbor.Unmarshal, decModeClient.Unmarshal} {
 		var dec any
